@@ -103,6 +103,14 @@ Proof.
 Qed.
 Print Assumptions C04_inventory.
 
+(* the class predicate evaluated on the harness cases is the hypothesis of C04_partial_types, on type tokens *)
+Theorem C04_outside_D11_at_most_once :
+  forall (base added : list N),
+    d11_pred base added = false ->
+    forall t, In t added -> forall i j, nth_error base i = Some t -> nth_error base j = Some t -> i = j.
+Proof. exact outside_D11_at_most_once. Qed.
+Print Assumptions C04_outside_D11_at_most_once.
+
 (* ---------- the checker ---------- *)
 Theorem C04_checker_sound :
   forall c, agree04 c = true -> known_D11 c = false ->
